@@ -51,6 +51,11 @@ def astep (c : Cls α) (a : Abs α) : Op α → Except Err (Abs α)
       if ((a.2.drop lo).take (hi - lo)).all c.valid then
         .ok (a.1 + lo, c.clean ((a.2.drop lo).take (hi - lo)))
       else .error .valueError
+  | .sliceStep i j k =>
+      if k = 0 then .error .valueError
+      else if (pySliceStep a.2 i j k).all c.valid then
+        .ok (a.1 + stepLo a.2.length k i, c.clean (pySliceStep a.2 i j k))
+      else .error .valueError
   | .incRes k fill =>
       let f := match c.fixedFill with
         | some x => some x
